@@ -115,6 +115,8 @@ def run_batch(model, prop, items, use_driver=True, keep_samples=2):
         if r["switches"] > 0:
             res["distinct"].append(hashlib.sha1((json.dumps(sc, sort_keys=True) + json.dumps(r["choices"])).encode()).hexdigest()[:16])
         rp = {"model": model.name, "scenario": sc, "choices": r["choices"]}
+        if ds.LINE_MODE:
+            rp["lines"] = True
         viol, known = model.relevant(prop, r)
         if viol:
             res["mon_fail"].append({"msg": viol[0], "all": viol[:6], "replay": rp, "signature": None})
@@ -218,8 +220,28 @@ def load_corpus(name):
     return out
 
 
+def wants_lines(job):
+    """a job (or the failure it replays / shrinks) that runs with every line of the library as a pre-emption point"""
+    if job.get("lines"):
+        return True
+    for k in ("replay", "failure"):
+        d = job.get(k) or {}
+        if d.get("lines") or (d.get("replay") or {}).get("lines"):
+            return True
+    return False
+
+
 def std_job(model, gen, job):
     """the job kinds every plugin supports: replay, corpus, around, explore"""
+    old = ds.LINE_MODE
+    ds.LINE_MODE = wants_lines(job)
+    try:
+        return _std_job(model, gen, job)
+    finally:
+        ds.LINE_MODE = old
+
+
+def _std_job(model, gen, job):
     prop = job["prop"]
     kind = job["kind"]
     if kind == "replay":
@@ -248,6 +270,14 @@ def std_job(model, gen, job):
         for j in range(job["schedules"]):
             items.append((sc, KINDS[j % 4], rng.randrange(1 << 30), None))
     return run_batch(model, prop, items, use_driver=not job.get("no_driver"))
+
+
+def line_jobs(prop, tier, seed, n_quick=2, n_thorough=12, scenarios=6, schedules=4):
+    """monitor-only exploration with every line of the library's own functions as a pre-emption point: what a change does
+    between two statements that the harness does not know about (an unlocked read-copy-write, a test moved out of a lock)
+    becomes reachable without anybody having placed a yield there"""
+    return [{"kind": "explore", "lines": True, "no_driver": True, "prop": prop, "seed": seed * 3010349 + j, "scenarios": scenarios,
+             "schedules": schedules} for j in range(n_quick if tier == "quick" else n_thorough)]
 
 
 def std_jobs(prop, tier, seed, corpus_name, n_quick=16, per_quick=10, n_thorough=96, per_thorough=16, schedules=8, extra=None):
@@ -324,6 +354,8 @@ def std_shrink(model, prop, failure, tries=25):
                 break
     out = dict(failure)
     out["replay"] = {"model": model.name, "scenario": sc, "choices": choices}
+    if rp.get("lines"):
+        out["replay"]["lines"] = True
     out["msg"] = msg
     return out
 
